@@ -1441,8 +1441,10 @@ func confGenExt(rng *rand.Rand, emit func(string)) {
 		emit(genCCVal(rng))
 	case k < 34:
 		emit(genFl(rng))
-	case k < 70:
+	case k < 63:
 		emit(genCF(rng))
+	case k < 70:
+		emit(genTy(rng))
 	case k < 78:
 		emit(genCVal(rng))
 	case k < 80:
